@@ -29,6 +29,10 @@ per public operation.
 -/
 import IrVerif.Lemmas.LinkedSetWF
 import IrVerif.Lemmas.LinkedSetRec
+import IrVerif.Lemmas.LinkedSetTree
+import IrVerif.Lemmas.TraversalRun
+import IrVerif.Lemmas.LinkedSetSlice
+import IrVerif.Lemmas.TraversalLocal
 namespace IrVerif.LinkedSet
 
 /-! ### representation invariant -/
@@ -203,6 +207,23 @@ theorem C11_getitem_len_contains {s : LSet} (h : WF s) :
         simp
   · intro v; simp [contains]
   · rw [hi.toListRev_eq, hL]
+
+
+/-! ### slices -/
+
+/-- **C11_getslice**: `x[start:stop:step]` (any combination of missing, negative and out-of-range
+bounds, any step) is `tuple(x)[start:stop:step]` of the current sequence: it raises exactly for step
+0, and otherwise is `[L[a + j * k] | j < cnt]` where `(a, k, cnt)` is `slice.indices(len(x))` with
+its count - every selected position lies inside the sequence, nothing is dropped or repeated. -/
+theorem C11_getslice {s : LSet} (h : WF s) (st sp step : Option Int) :
+    getSlice s st sp step = pySlice (toList s) st sp step ∧
+    len s = some (toList s).length ∧
+    (getSlice s st sp step = none ↔ step = some 0) ∧
+    ∀ a k cnt, sliceIndices (toList s).length st sp step = some (a, k, cnt) →
+      ∃ res, getSlice s st sp step = some res ∧ res.length = cnt ∧
+        ∀ j, j < cnt → res[j]? = (toList s)[(a + j * k).toNat]? ∧ (a + j * k).toNat < (toList s).length :=
+  ⟨rfl, (C11_getitem_len_contains h).1, (pySlice_spec (toList s) st sp step).1,
+    (pySlice_spec (toList s) st sp step).2⟩
 
 /-! ### tombstones -/
 
@@ -511,6 +532,327 @@ theorem C11_rec_refine_step {w : RWorld} {d : Dir} {rk : Nat → Nat} (hw : Worl
     rw [hsame]
     exact (C11_refine_step (hw.setOf g) op d fr.c (by rw [← hfg]; exact okf.valid)).1
 
+
+/-! ### the rank function is derived from a decidable predicate on the nesting
+
+`RWorld.acyclic w d` (Model/LinkedSet.lean, a `Bool`, evaluated by the driver on every generated
+case): the height of every graph in the nesting through the present members does not change when
+one more level is explored, i.e. no graph is nested in itself.  `RWorld.acyclicStatic w d home`:
+the same for the static nesting (subgraphs hanging under the nodes whose home graph is `g`, member
+or not), `RWorld.homedOk w home`: every node is a member of its home graph only.  The theorems
+below are `C11_rec_terminates` / `C11_rec_preorder` / `C11_rec_history` with the rank function
+instantiated by the height and the `Ranked` / `StaticRanked` / `Homed` hypotheses discharged: no
+rank function is assumed any more.  A subgraph shared by two nodes does not violate `acyclic`: it
+is visited once per attribute position (the `example` below); a graph nested in itself violates it
+and the model then never finishes (`C11_rec_selfnest_diverges`). -/
+
+/-- **C11_rec_acyclic_ranked**: the height is a rank function for the current nesting. -/
+theorem C11_rec_acyclic_ranked {w : RWorld} {d : Dir} (ha : w.acyclic d = true) :
+    Ranked w d (w.hgt d) ∧ ∀ g, w.hgt d g ≤ w.sets.length :=
+  ⟨ranked_of_acyclic ha, fun g => hgtG_le _ _ g⟩
+
+/-- **C11_rec_static_ranked**: the same for the static nesting and the home-graph assignment. -/
+theorem C11_rec_static_ranked {w : RWorld} {d : Dir} {home : Nat → Nat}
+    (ha : w.acyclicStatic d home = true) (hh : w.homedOk home = true) :
+    StaticRanked w d (w.shgt d home) home ∧ Homed w home ∧ Ranked w d (w.shgt d home) :=
+  ⟨static_ranked_of_acyclic ha, homed_of_ok hh,
+    ranked_of_static (homed_of_ok hh) (static_ranked_of_acyclic ha)⟩
+
+/-- **C11_rec_terminates_acyclic** (supersedes `C11_rec_terminates`: no rank function assumed):
+when no graph is nested in itself, a fresh recursive iterator on any graph, with no further edits,
+runs to StopIteration within the stated number of steps and every `next()` returns a yield or
+StopIteration. -/
+theorem C11_rec_terminates_acyclic {w : RWorld} {d : Dir} (hw : WorldWF w) (ha : w.acyclic d = true)
+    (g : Nat) :
+    ∃ outs, ∀ f, 2 * outs.length + 2 ≤ f →
+      recDrain w d f (recStart g) = (outs, .stop) ∧
+      ((recNext w d f (recStart g)).2.2 = .stop ∨ ∃ v, (recNext w d f (recStart g)).2.2 = .yield v) := by
+  obtain ⟨outs, h⟩ := C11_rec_terminates hw (ranked_of_acyclic ha) (C11_rec_start hw d (w.hgt d) g)
+  exact ⟨outs, fun f hf => h f (by simpa [recStart] using hf)⟩
+
+/-- the same from any consistent state of the iterator (frames parked anywhere) -/
+theorem C11_rec_terminates_acyclic_any {w : RWorld} {d : Dir} (hw : WorldWF w) (ha : w.acyclic d = true)
+    {st : List RFrame} (ok : StackOK w d (w.hgt d) st) :
+    ∃ outs, ∀ f, 2 * outs.length + st.length + 1 ≤ f →
+      recDrain w d f st = (outs, .stop) ∧
+      ((recNext w d f st).2.2 = .stop ∨ ∃ v, (recNext w d f st).2.2 = .yield v) :=
+  C11_rec_terminates hw (ranked_of_acyclic ha) ok
+
+/-- **C11_rec_preorder_acyclic** (supersedes `C11_rec_preorder`): when no graph is nested in itself,
+a fresh iterator with no edits produces exactly the pre-order stream, explored to depth
+`number of graphs`. -/
+theorem C11_rec_preorder_acyclic {w : RWorld} {d : Dir} (hw : WorldWF w) (ha : w.acyclic d = true)
+    (g : Nat) :
+    ∀ f, 2 * (specTop w d w.sets.length g).length + 2 ≤ f →
+      recDrain w d f (recStart g) = (specTop w d w.sets.length g, .stop) :=
+  C11_rec_preorder hw (ranked_of_acyclic ha) w.sets.length g (hgtG_le _ _ g)
+
+/-- **C11_rec_history_acyclic** (supersedes `C11_rec_history`): the hypotheses on the nesting are
+the two decidable predicates. -/
+theorem C11_rec_history_acyclic (d : Dir) (fuel : Nat) (home : Nat → Nat) (es : List REv) (w : RWorld)
+    (st : List RFrame) (hw : WorldWF w) (hh : w.homedOk home = true)
+    (ha : w.acyclicStatic d home = true) (ok : StackOK w d (w.shgt d home) st)
+    (adm : Admissible w.sets.length home es) :
+    RecHistInv d fuel (w.shgt d home) home w st es :=
+  C11_rec_history d fuel _ home es w st hw (homed_of_ok hh) (static_ranked_of_acyclic ha) ok adm
+
+/-- a graph nested in itself: graph 0 = [1], node 1 carries graph 0 as an attribute -/
+def selfWorld : RWorld := ⟨[(extend empty [1]).1], [(1, [.graph 0])], none⟩
+
+/-- **C11_rec_selfnest_diverges**: on a graph nested in itself the predicate is false and the model
+of the iterator never finishes: whatever the step bound, the drain ends by exhausting it (the real
+iterator yields the same node again and again until CPython's recursion limit is hit: the harness
+observes RecursionError after 332 yields with the default limit). -/
+theorem C11_rec_selfnest_diverges :
+    selfWorld.acyclic .fwd = false ∧ ∀ f, (recDrain selfWorld .fwd f (recStart 0)).2 = .fuel := by
+  refine ⟨by decide, ?_⟩
+  have key : ∀ f (rest : List RFrame) (fr : RFrame),
+      (fr = RFrame.fresh 0 ∨ fr = ⟨0, .at 1, some 1, []⟩ ∨ fr = ⟨0, .at 1, none, [0]⟩) →
+      (recDrain selfWorld .fwd f (fr :: rest)).2 = .fuel := by
+    intro f
+    induction f with
+    | zero => intro rest fr _; rfl
+    | succ f ih =>
+      intro rest fr h
+      rcases h with rfl | rfl | rfl
+      · have e : recStep selfWorld .fwd (RFrame.fresh 0 :: rest) =
+            (⟨0, .at 1, some 1, []⟩ :: rest, [Out.enter 0, Out.yield 0 1], some (.yield 1)) := by
+          have : iterNext (selfWorld.setOf 0) .fwd .notStarted = (.at 1, .yield 1) := by decide
+          simp [recStep, RFrame.fresh, this]
+        simp only [recDrain, e]
+        exact ih rest _ (Or.inr (Or.inl rfl))
+      · have e : recStep selfWorld .fwd (⟨0, .at 1, some 1, []⟩ :: rest) =
+            (⟨0, .at 1, none, [0]⟩ :: rest, [], none) := by
+          simp [recStep, selfWorld, RWorld.recurse, RWorld.visit, RWorld.attrsOf, List.lookup]
+        simp only [recDrain, e]
+        exact ih rest _ (Or.inr (Or.inr rfl))
+      · have e : recStep selfWorld .fwd (⟨0, .at 1, none, [0]⟩ :: rest) =
+            (RFrame.fresh 0 :: ⟨0, .at 1, none, []⟩ :: rest, [Out.enter 0], none) := by
+          simp [recStep]
+        simp only [recDrain, e]
+        exact ih _ _ (Or.inl rfl)
+  intro f
+  exact key f [] _ (Or.inl rfl)
+
+
+/-! ### recursive iteration while node attributes are edited (`Model/Traversal.lean`)
+
+The finer model of `RecursiveGraphIterator`: `_iterate_subgraphs(node)` walks a CPython dict
+iterator over `node.attributes`, created when the generator is resumed after `yield node`; every
+attribute is read only when the previous subgraph has been iterated to its end.  Events of a
+history: `next()`, edits of node sequences, `node.attributes[k] = attr`, `del node.attributes[k]`.
+
+* `C11_trav_start`, `C11_trav_only_members`, `C11_trav_history`: consistency and "only members are
+  yielded" for EVERY history, whatever the nesting and whichever attributes are edited (also of the
+  node whose subgraphs are being visited); a `next()` returns a yield, StopIteration, or the dict
+  iterator's RuntimeError.
+* `C11_trav_remaining`: once edits stop, if no graph is nested in itself (`TWorld.acyclic`, a
+  `Bool`) and every dict iterator of the stack is in step with its dict (`TFrame.synced`, a `Bool`;
+  false only after a key was added to / deleted from the node that is being expanded), the iterator
+  runs to StopIteration and produces exactly `tStackSpec`: per frame, the rest of the `GRAPHS` tuple
+  being walked, the attributes not yet reached, then the nodes not yet yielded, each followed by
+  the complete visit of the subgraphs its attributes name *at that time*.
+* `C11_trav_attached_later_visited`, `C11_trav_finished_not_visited`,
+  `C11_trav_detached_runs_to_end`: the English clauses for attribute edits, read off that stream. -/
+
+/-- **C11_trav_start**: a fresh iterator is consistent and in step. -/
+theorem C11_trav_start {w : TWorld} (hw : TWorldWF w) (g : Nat) :
+    TStackOK w (tStart g) ∧ ∀ fr ∈ tStart g, fr.synced w = true := by
+  constructor
+  · intro fr hfr
+    simp only [tStart, List.mem_singleton] at hfr
+    subst hfr; exact tframeOK_fresh hw g
+  · intro fr hfr
+    simp only [tStart, List.mem_singleton] at hfr
+    subst hfr; rfl
+
+/-- **C11_trav_only_members**: whatever the nesting (cyclic, shared) and whatever the state of the
+attribute dicts, every node a `next()` yields is at that moment a member of the graph it is yielded
+from, the stack stays consistent, and the call returns a yield, StopIteration or RuntimeError (never
+the container's `owning_list` error, never out of fuel for another reason than the step bound). -/
+theorem C11_trav_only_members {w : TWorld} {d : Dir} (hw : TWorldWF w) {st : List TFrame}
+    (ok : TStackOK w st) (f : Nat) :
+    TStackOK w (tNext w d f st).1 ∧
+    ∀ g v, Out.yield g v ∈ (tNext w d f st).2.1 → v ∈ toList (w.setOf g) :=
+  tNext_ok hw f st ok
+
+/-- **C11_trav_history**: along every history of `next()` calls, edits of node sequences and edits
+of node attributes (any node: before, at or after the position of the iterator), every `next()`
+yields only current members, and world and stack stay consistent. -/
+theorem C11_trav_history (d : Dir) (fuel : Nat) (es : List TEv) (w : TWorld) (st : List TFrame)
+    (hw : TWorldWF w) (ok : TStackOK w st) : THistInv d fuel w st es :=
+  thistory d fuel es w st hw ok
+
+/-- **C11_trav_remaining** (termination and the exact remaining stream, attribute edits included):
+no graph nested in itself, every dict iterator in step: the iterator - parked anywhere, after any
+history - runs to StopIteration and produces exactly `tStackSpec`. -/
+theorem C11_trav_remaining {w : TWorld} {d : Dir} (hw : TWorldWF w) (ha : w.acyclic d = true)
+    {st : List TFrame} (ok : TStackOK w st) (hs : ∀ fr ∈ st, fr.synced w = true) :
+    ∃ n, ∀ f, n ≤ f →
+      tDrain w d f st = (tStackSpec (tVisit w d (w.sets.length + 1)) w d st, .stop) :=
+  (tsteps_stack hw ha st ok hs).drain_all
+
+/-- **C11_trav_preorder**: a fresh iterator with no edits produces the pre-order stream over the
+current attributes. -/
+theorem C11_trav_preorder {w : TWorld} {d : Dir} (hw : TWorldWF w) (ha : w.acyclic d = true) (g : Nat) :
+    ∃ n, ∀ f, n ≤ f → tDrain w d f (tStart g) =
+      (Out.enter g :: tLoop (tVisit w d (w.sets.length + 1)) w d g (rest (w.setOf g) d .notStarted), .stop) := by
+  obtain ⟨n, h⟩ := C11_trav_remaining hw ha (C11_trav_start hw g).1 (C11_trav_start hw g).2
+  refine ⟨n, fun f hf => ?_⟩
+  rw [h f hf]
+  simp [tStart, tStackSpec, tFrameSpec, TFrame.fresh, tPop]
+
+theorem infix_flatMap_of_mem {α β : Type} (f : α → List β) : ∀ (l : List α) (x : α), x ∈ l → f x <:+: l.flatMap f
+  | [], _, h => by cases h
+  | y :: l, x, h => by
+      rcases List.mem_cons.1 h with rfl | h
+      · exact ⟨[], l.flatMap f, by simp⟩
+      · obtain ⟨s, t, e⟩ := infix_flatMap_of_mem f l x h
+        exact ⟨f y ++ s, t, by simp [← e]⟩
+
+theorem infix_wrap {β : Type} {l m : List β} (a b : List β) (h : l <:+: m) : l <:+: a ++ m ++ b := by
+  obtain ⟨s, t, e⟩ := h
+  exact ⟨a ++ s, t ++ b, by simp [← e]⟩
+
+theorem infix_tAfter (V : Nat → List Out) (w : TWorld) (d : Dir) (v h : Nat) (hr : w.recurse v = true)
+    (hh : h ∈ w.visit d v) : V h <:+: tAfter V w d v := by
+  have := infix_flatMap_of_mem V (w.visit d v) h hh
+  simpa [tAfter, hr] using infix_wrap (if w.recf.isSome then [Out.pred v] else []) [] this
+
+theorem mem_live_set (dct : PyDict) (k : Nat) (a : AVal) : (k, a) ∈ (dct.set k a).live := by
+  unfold PyDict.set
+  split
+  · rename_i hk
+    simp only [PyDict.has, List.any_eq_true] at hk
+    obtain ⟨e, he, hek⟩ := hk
+    simp only [PyDict.live, List.mem_filterMap, id] at he ⊢
+    obtain ⟨x, hx, rfl⟩ := he
+    refine ⟨setSlot k (some a) (some e), List.mem_map.2 ⟨some e, hx, rfl⟩, ?_⟩
+    obtain ⟨k', a'⟩ := e
+    have : k' = k := by simpa using hek
+    subst this
+    simp [setSlot]
+  · simp [PyDict.live]
+
+theorem dictOf_setDict_same (w : TWorld) (v : Nat) (dct : PyDict) : (w.setDict v dct).dictOf v = dct := by
+  simp [TWorld.setDict, TWorld.dictOf, List.lookup]
+
+theorem dictOf_setDict_other (w : TWorld) (v v' : Nat) (dct : PyDict) (h : v' ≠ v) :
+    (w.setDict v dct).dictOf v' = w.dictOf v' := by
+  have : (v' == v) = false := by simpa using h
+  simp [TWorld.setDict, TWorld.dictOf, List.lookup, this]
+
+/-- **C11_trav_attached_later_visited**: a subgraph attached (`node.attributes[k] = attr`, `attr` a
+GRAPH or GRAPHS attribute naming `h`) to a node `v` that the frame `fr` of the iterator has not
+yielded yet - or has just yielded, its attributes not read yet - is visited: the complete visit
+`V h` is a contiguous part of what the stack still produces (which by `C11_trav_remaining`, with
+`V = tVisit`, is what the iterator then does; the edit may be any time before `v` is resumed). -/
+theorem C11_trav_attached_later_visited (V : Nat → List Out) (w : TWorld) (d : Dir) (st : List TFrame)
+    (fr : TFrame) (hfr : fr ∈ st) (v k h : Nat) (a : AVal) (ha : h ∈ a.graphsOf d)
+    (hv : v ∈ rest (w.setOf fr.g) d fr.c ∨ fr.mode = .last v) (hr : w.recurse v = true) :
+    V h <:+: tStackSpec V (w.setAttr v k a) d st := by
+  let w' := w.setAttr v k a
+  have hvis : h ∈ w'.visit d v := by
+    simp only [TWorld.visit, List.mem_flatMap]
+    refine ⟨(k, a), ?_, ha⟩
+    show (k, a) ∈ (w'.dictOf v).live
+    rw [show w'.dictOf v = (w.dictOf v).set k a from dictOf_setDict_same w v _]
+    exact mem_live_set _ k a
+  have hr' : w'.recurse v = true := hr
+  have hfrm : V h <:+: tFrameSpec V w' d fr := by
+    rcases hv with hv | hv
+    · have hv' : v ∈ rest (w'.setOf fr.g) d fr.c := hv
+      have h1 : (Out.yield fr.g v :: tAfter V w' d v) <:+: tLoop V w' d fr.g (rest (w'.setOf fr.g) d fr.c) := by
+        have := infix_flatMap_of_mem (fun v => Out.yield fr.g v :: tAfter V w' d v) _ v hv'
+        simpa [tLoop] using infix_wrap [] [Out.exit fr.g] this
+      have h2 : V h <:+: Out.yield fr.g v :: tAfter V w' d v := by
+        obtain ⟨s, t, e⟩ := infix_tAfter V w' d v h hr' hvis
+        exact ⟨Out.yield fr.g v :: s, t, by simp [← e]⟩
+      have h3 := h2.trans h1
+      unfold tFrameSpec
+      exact h3.trans (List.suffix_append _ _).isInfix
+    · have h2 := infix_tAfter V w' d v h hr' hvis
+      unfold tFrameSpec
+      simp only [hv]
+      exact h2.trans ((List.prefix_append _ _).trans (List.prefix_append _ _)).isInfix
+  -- lift from the frame to the stack
+  have lift : ∀ st : List TFrame, fr ∈ st → V h <:+: tStackSpec V w' d st := by
+    intro st
+    induction st with
+    | nil => intro h; cases h
+    | cons x xs ih =>
+      intro hx
+      rcases List.mem_cons.1 hx with rfl | hx
+      · obtain ⟨s, t, e⟩ := hfrm
+        exact ⟨s, t ++ (tPop xs fr.g ++ tStackSpec V w' d xs), by simp [tStackSpec, ← e, List.append_assoc]⟩
+      · obtain ⟨s, t, e⟩ := ih hx
+        exact ⟨tFrameSpec V w' d x ++ tPop xs x.g ++ s, t, by simp [tStackSpec, ← e, List.append_assoc]⟩
+  exact lift st hfr
+
+
+/-- **C11_trav_attr_edit_agree**: an attribute edit changes nothing but the attribute dict of the
+edited node. -/
+theorem C11_trav_attr_edit_agree (w : TWorld) (v k : Nat) (a : AVal) :
+    AgreeOff v w (w.setAttr v k a) ∧ AgreeOff v w (w.delAttr v k).1 :=
+  ⟨agreeOff_setAttr w v k a, agreeOff_delAttr w v k⟩
+
+/-- **C11_trav_finished_not_visited**: whatever is done to the attributes of a node `v0` that no
+frame of the iterator is going to resume or yield any more (it is not the node a frame has just
+yielded or is expanding, not among the nodes a frame still has to yield, and not yielded inside any
+subgraph still to be visited: all decidable on the remaining stream) - attaching subgraphs to it,
+replacing, deleting - leaves the remaining stream exactly as it was: a subgraph attached to an
+already finished node is not visited. -/
+theorem C11_trav_finished_not_visited {v0 : Nat} {w w' : TWorld} (h : AgreeOff v0 w w') (d : Dir) (k : Nat) :
+    ∀ (st : List TFrame), (∀ fr ∈ st, v0 ∉ fr.ownNodes w d) →
+      (∀ g, Out.yield g v0 ∉ tStackSpec (tVisit w d k) w d st) →
+      tStackSpec (tVisit w' d k) w' d st = tStackSpec (tVisit w d k) w d st
+  | [], _, _ => rfl
+  | fr :: rest, hown, hno => by
+      simp only [tStackSpec]
+      rw [tFrameSpec_local h d k fr (hown fr (by simp))
+            (fun g hy => hno g (by simp [tStackSpec, hy])),
+          C11_trav_finished_not_visited h d k rest (fun x hx => hown x (by simp [hx]))
+            (fun g hy => hno g (by simp [tStackSpec, hy]))]
+
+theorem tPrefixSpec_local {v0 : Nat} {w w' : TWorld} (h : AgreeOff v0 w w') (d : Dir) (k : Nat) (below : List TFrame) :
+    ∀ (top : List TFrame), (∀ fr ∈ top, v0 ∉ fr.ownNodes w d) →
+      (∀ g, Out.yield g v0 ∉ tPrefixSpec (tVisit w d k) w d below top) →
+      tPrefixSpec (tVisit w' d k) w' d below top = tPrefixSpec (tVisit w d k) w d below top
+  | [], _, _ => rfl
+  | fr :: rest, hown, hno => by
+      simp only [tPrefixSpec]
+      rw [tFrameSpec_local h d k fr (hown fr (by simp))
+            (fun g hy => hno g (by simp [tPrefixSpec, hy])),
+          tPrefixSpec_local h d k below rest (fun x hx => hown x (by simp [hx]))
+            (fun g hy => hno g (by simp [tPrefixSpec, hy]))]
+
+/-- **C11_trav_detached_runs_to_end**: let the innermost frames `top` of the stack be iterating a
+subgraph (and what is nested in it) that hangs under node `v0` of a frame further down, and let the
+attributes of `v0` be edited in any way - the subgraph detached by deleting or replacing the
+attribute.  Then in the edited world the frames `top` run to the end of their generators and
+produce exactly the stream they would have produced without the edit, and control returns to the
+frames below (where the dict iterator over `v0`'s attributes continues - or raises, if a key was
+added or deleted). -/
+theorem C11_trav_detached_runs_to_end {v0 : Nat} {w w' : TWorld} (h : AgreeOff v0 w w') (d : Dir)
+    (hw : TWorldWF w) (ha : w'.acyclic d = true) (top below : List TFrame) (ok : TStackOK w top)
+    (hs : ∀ fr ∈ top, fr.synced w = true) (hown : ∀ fr ∈ top, v0 ∉ fr.ownNodes w d)
+    (hno : ∀ g, Out.yield g v0 ∉ tPrefixSpec (tVisit w d (w.sets.length + 1)) w d below top) :
+    TSteps w' d (top ++ below) (tPrefixSpec (tVisit w d (w.sets.length + 1)) w d below top) below := by
+  have hw' : TWorldWF w' := by intro s hs'; rw [h.sets] at hs'; exact hw s hs'
+  have ok' : TStackOK w' top := tstackOK_sets (w := w) h.sets ok
+  have hs' : ∀ fr ∈ top, fr.synced w' = true := by
+    intro fr hfr
+    have := hs fr hfr
+    cases hm : fr.mode with
+    | loop => simp [TFrame.synced, hm]
+    | last v => simp [TFrame.synced, hm]
+    | expand v it ps =>
+      have hv : v ≠ v0 := by rintro rfl; exact hown fr hfr (by simp [TFrame.ownNodes, hm])
+      simpa [TFrame.synced, hm, h.dict v hv] using this
+  have := tsteps_prefix hw' ha below top ok' hs'
+  rw [h.sets, tPrefixSpec_local h d _ below top hown hno] at this
+  exact this
+
 /-! ### non-vacuity of the hypotheses, and the corner the spec fixes -/
 
 -- `WF` is inhabited by every reachable state (C11_rep_history); concretely, with a tombstone:
@@ -601,5 +943,62 @@ example : StaticRanked exWorld .fwd (fun g => 1 - g) exHome := by
 
 example : Admissible exWorld.sets.length exHome [.next, .edit 0 (.remove 1), .edit 1 (.append 12), .next] := by
   simp [Admissible, touched, exWorld, exHome]
+
+-- the derived-rank theorems: the predicates hold on the example world; a shared subgraph (graph 1
+-- under node 1 and under node 2) satisfies `acyclic` but not `unshared`, and is visited twice
+example : exWorld.acyclic .fwd = true ∧ exWorld.acyclicStatic .fwd exHome = true ∧
+    exWorld.homedOk exHome = true ∧ exWorld.unshared 0 = true ∧ exWorld.treeShape exHome 0 = true := by decide
+
+def sharedWorld : RWorld :=
+  ⟨[(extend empty [1, 2]).1, (extend empty [11]).1], [(1, [.graph 1]), (2, [.graphs [1]])], none⟩
+
+example : sharedWorld.acyclic .fwd = true ∧ sharedWorld.unshared 0 = false ∧
+    specTop sharedWorld .fwd 2 0 =
+      [.enter 0, .yield 0 1, .enter 1, .enter 1, .yield 1 11, .exit 1, .exit 1,
+       .yield 0 2, .enter 1, .enter 1, .yield 1 11, .exit 1, .exit 1, .exit 0] := by decide
+
+
+-- slices on a state with a tombstone: [7, 9, 7->moved]: sequence [9, 7]
+example :
+    getSlice (apply (apply (apply empty (.extend [7, 8, 9])).1 (.remove 8)).1 (.append 7)).1 none none (some (-1)) = some [7, 9] ∧
+    getSlice (apply empty (.extend [1, 2, 3, 4, 5])).1 (some (-2)) none none = some [4, 5] ∧
+    getSlice (apply empty (.extend [1, 2, 3, 4, 5])).1 (some 4) (some (-9)) (some (-2)) = some [5, 3, 1] ∧
+    getSlice (apply empty (.extend [1, 2, 3, 4, 5])).1 none none (some 0) = none ∧
+    sliceIndices 5 (some 4) (some (-9)) (some (-2)) = some (4, -2, 3) := by decide
+
+-- the recursive iterator with editable attributes: graph 1 under node 1 of graph 0
+def exT : TWorld := (⟨[(extend empty [1, 2]).1, (extend empty [11, 12]).1], [], none⟩ : TWorld).setAttr 1 0 (.graph 1)
+
+example : TWorldWF exT := by
+  intro s hs
+  simp only [exT, TWorld.setAttr, TWorld.setDict, List.mem_cons, List.not_mem_nil, or_false] at hs
+  rcases hs with rfl | rfl <;> exact C11_rep_step C11_rep_empty.1 (.extend _)
+
+-- hypotheses of C11_trav_remaining hold on a fresh iterator and inside the subgraph, and its conclusion evaluated
+example : exT.acyclic .fwd = true ∧
+    tDrain exT .fwd 60 (tStart 0) = (tStackSpec (tVisit exT .fwd 3) exT .fwd (tStart 0), .stop) := by decide
+
+/-- the iterator after two `next()` calls: it has yielded node 1 and node 11 and is inside graph 1 -/
+def exSt : List TFrame := (tNext exT .fwd 60 (tNext exT .fwd 60 (tStart 0)).1).1
+
+example : exSt = [⟨1, .at 1, .last 11⟩, ⟨0, .at 1, .expand 1 ⟨1, 0, 1⟩ []⟩] := by decide
+
+-- replacing the attribute (same key) of the node that is being expanded keeps the dict iterator in
+-- step; the detached graph 1 is iterated to its end (node 12), then the iteration goes on with node 2
+example : (exSt.all fun fr => fr.synced (exT.setAttr 1 0 .other)) = true ∧
+    (tDrain (exT.setAttr 1 0 .other) .fwd 60 exSt) =
+      ([.yield 1 12, .exit 1, .exit 1, .yield 0 2, .exit 0], .stop) := by decide
+
+-- deleting it (or adding a key) puts the dict iterator out of step: graph 1 is still iterated to
+-- its end, then `RuntimeError: dictionary changed size during iteration`
+example : (exSt.all fun fr => fr.synced (exT.delAttr 1 0).1) = false ∧
+    (tDrain (exT.delAttr 1 0).1 .fwd 60 exSt) = ([.yield 1 12, .exit 1, .exit 1], .raised) ∧
+    (tDrain (exT.setAttr 1 1 (.graph 1)) .fwd 60 exSt) = ([.yield 1 12, .exit 1, .exit 1], .raised) := by decide
+
+-- hypotheses of C11_trav_finished_not_visited / C11_trav_detached_runs_to_end: node 2 is still to be
+-- yielded by the outer frame, node 1 is being expanded by it, node 11 is finished for no frame yet
+example : 2 ∈ (exSt.getD 1 (TFrame.fresh 0)).ownNodes exT .fwd ∧ 1 ∈ (exSt.getD 1 (TFrame.fresh 0)).ownNodes exT .fwd ∧
+    1 ∉ (exSt.getD 0 (TFrame.fresh 0)).ownNodes exT .fwd ∧
+    tPrefixSpec (tVisit exT .fwd 3) exT .fwd (exSt.drop 1) (exSt.take 1) = [.yield 1 12, .exit 1, .exit 1] := by decide
 
 end IrVerif.LinkedSet
